@@ -158,6 +158,20 @@ def run(R):
         for r in lo["routes"]:
             hist["hoisted_components"] += len(r["builtAt"])
             hist["transient_nodes"] += sum(1 for c in r["comps"] for b in c["built"] if defs[by_uid[b["ctor"]]]["life"] == "transient")
+    # ---- `enforce_invariants`: pavexc's own guard vs the model's bookkeeping, on the programs pavexc did not accept
+    PANIC = "should be invoked at most once in a request pipeline"
+    rej = [o for o in obs.values() if o["rc"] != 0 and lifetrace.usable(o["spec"])]
+    rlines = [json.dumps(gen_scopes.life_request(o["spec"])) for o in rej]
+    routs = [json.loads(x) for x in pxvlib.run_model("life", rlines)] if rlines else []
+    n_guard = 0
+    for o, lo in zip(rej, routs):
+        real = PANIC in o["out"]
+        model = lo.get("r") == "ok" and any(r["panics"] for r in lo["routes"])
+        n_guard += 1 if real else 0
+        if real and not model:
+            dis.append({"program": o["name"], "what": "pavexc's enforce_invariants found a request-scoped constructor invoked twice in a pipeline that the model builds once",
+                        "pavexc": [l for l in o["out"].split("\n") if PANIC in l][:1], "app_module_source": o["src"]})
+    hist["enforce_invariants_panics"] = n_guard
     R.coverage["programs"] = len(progs)
     R.coverage["evaluations"] = n_req
     R.coverage["distinct_nontrivial"] = n_nontrivial
